@@ -6,6 +6,8 @@ import Statrs.Driver.Proto
 import Statrs.Gen.SFFloat
 import Statrs.Gen.All
 import Statrs.Model.FHand
+import Statrs.Model.Empirical
+import Statrs.Model.SamplerDispatch
 namespace Statrs.Model.Dispatch
 open Statrs Statrs.Driver Statrs.Gen
 
@@ -51,8 +53,56 @@ def genTable : List (String × (List Arg → String)) := [
       reply (iterN (InfiniteSawtooth.next (α := Float)) (InfiniteSawtooth.new (α := Float) per hv lv d) n.toNat)
     | _ => "bad-args")]
 
+instance : ToReply (Data Float) := ⟨fun d => reply d.f_0⟩
+
+def orderTable : List (String × (List Arg → String)) := [
+  ("Data::order_statistic", fun a => match a with
+    | [Arg.fl l, Arg.i k] => reply (Data.order_statistic (α := Float) ⟨l⟩ k)
+    | _ => "bad-args"),
+  ("Data::median_os", fun a => match a with
+    | [Arg.fl l] => reply (Data.median (α := Float) ⟨l⟩)
+    | _ => "bad-args"),
+  ("Data::quantile", fun a => match a with
+    | [Arg.fl l, Arg.f t] => reply (Data.quantile (α := Float) ⟨l⟩ t)
+    | _ => "bad-args"),
+  ("Data::percentile", fun a => match a with
+    | [Arg.fl l, Arg.i p] => reply (Data.percentile (α := Float) ⟨l⟩ p)
+    | _ => "bad-args"),
+  ("Data::lower_quartile", fun a => match a with
+    | [Arg.fl l] => reply (Data.lower_quartile (α := Float) ⟨l⟩)
+    | _ => "bad-args"),
+  ("Data::upper_quartile", fun a => match a with
+    | [Arg.fl l] => reply (Data.upper_quartile (α := Float) ⟨l⟩)
+    | _ => "bad-args"),
+  ("Data::interquartile_range", fun a => match a with
+    | [Arg.fl l] => reply (Data.interquartile_range (α := Float) ⟨l⟩)
+    | _ => "bad-args")]
+
+/-- observation of an Empirical state at the points `obs` -/
+def empObs (e : Statrs.Model.Empirical Float) (obs : List Float) : List Float × (Option Float × Option Float) :=
+  let mm := if Statrs.Model.Empirical.min_panics e then [fNaN, fNaN]
+            else [Statrs.Model.Empirical.min e, Statrs.Model.Empirical.max e]
+  (obs.map (Statrs.Model.Empirical.cdf e) ++ obs.map (Statrs.Model.Empirical.sf e) ++ mm,
+   (Statrs.Model.Empirical.mean e, Statrs.Model.Empirical.variance e))
+
+def empRun (vals : List Float) (ops : List Int) (obs : List Float) :
+    List (List Float × (Option Float × Option Float)) :=
+  let e0 : Statrs.Model.Empirical Float := unwrapE (Statrs.Model.Empirical.new (α := Float))
+  let step := fun (acc : Statrs.Model.Empirical Float × List (List Float × (Option Float × Option Float))) (vo : Float × Int) =>
+    let e := if vo.2 == 0 then Statrs.Model.Empirical.add acc.1 vo.1 else Statrs.Model.Empirical.remove acc.1 vo.1
+    (e, acc.2 ++ [empObs e obs])
+  ((vals.zip ops).foldl step (e0, [])).2
+
+def empTable : List (String × (List Arg → String)) := [
+  ("Empirical::history", fun a => match a with
+    | [Arg.fl vals, Arg.il ops, Arg.fl obs] => reply (empRun vals ops obs)
+    | _ => "bad-args"),
+  ("Empirical::from_iter", fun a => match a with
+    | [Arg.fl vals, Arg.fl obs] => reply (empObs (Statrs.Model.Empirical.from_iter (α := Float) vals) obs)
+    | _ => "bad-args")]
+
 def table : List (String × (List Arg → String)) :=
-  genTable ++
+  Statrs.Model.SamplerDispatch.sampleTable ++ empTable ++ orderTable ++ genTable ++
   statEntries "min" (IterStatistics.min (α := Float)) ++
   statEntries "max" (IterStatistics.max (α := Float)) ++
   statEntries "abs_min" (IterStatistics.abs_min (α := Float)) ++
